@@ -1,8 +1,76 @@
+/-
+  C03: asynchronous requests run exactly once: no lost wake-up of a loop.
+  Model: Gnet/Model/Wake.lean (producers running `Trigger`, the loop running the task part of
+  `Polling`, over the full-granularity queue model of C13, the `wakeupCall` flag and an
+  edge-triggered eventfd). All statements hold in every reachable state: any number of
+  producers, any requests and priorities, any interleaving of single atomic operations and
+  system calls.
+  Only property theorems and non-vacuity examples live here; the invariant and helper lemmas
+  are in Gnet/Proofs/Wake*.lean. Statements are never weakened to make a proof pass.
+-/
 import Gnet.Model.Wake
+import Gnet.Proofs.Msq
+import Gnet.Proofs.Wake
 namespace Gnet.Props.C03
-open Gnet.Wake
+open Gnet Gnet.Wake
 
-theorem init_not_queued (n : Nat) (th : Int) : ¬ anyQueued (init n th) := by
-  simp [anyQueued, init, Gnet.Msq.init]
+/-- both queues are reachable states of the C13 model, so every C13 theorem applies to them -/
+theorem wake_queues_reachable (s : State) (h : Reachable s) :
+    Msq.Reachable s.urgent ∧ Msq.Reachable s.low :=
+  Proofs.Wake.queues_reachable s h
+
+/-- NO LOST WAKE-UP: whenever a task sits in a queue (and the loop has not shut down), a
+    wake-up is outstanding: the loop is still inside its chores at or before the final
+    re-check, or an eventfd edge is pending, or the winner of the flag is about to write the
+    eventfd, or a producer that has linked its task has not yet finished its own attempt. -/
+theorem wake_no_lost (s : State) (h : Reachable s) (hq : anyQueued s) (hx : loopPc s ≠ .lExit) :
+    WakeOutstanding s :=
+  Proofs.Wake.no_lost s h hq hx
+
+/-- in particular the state "loop about to block, nothing pending, nobody in flight, yet a
+    task queued" is unreachable -/
+theorem wake_blocked_empty (s : State) (h : Reachable s) (hl : loopPc s = .lWait) (he : s.edge = false)
+    (hp : ∀ tid t, 0 < tid → s.threads[tid]? = some t → t.pc = .idle) : ¬ anyQueued s :=
+  Proofs.Wake.blocked_empty s h hl he hp
+
+/-- EXACTLY ONCE, IN ORDER: everything whose Enqueue has taken effect is, in that order,
+    what the loop has executed, then at most one task it has just dequeued, then what is
+    still queued - for the urgent queue (asynchronous writes) and the low-priority queue. -/
+theorem wake_exactly_once_urgent (s : State) (h : Reachable s) :
+    ∃ inflight : List Nat, inflight.length ≤ 1 ∧
+      s.urgent.enqLog = s.executedU ++ inflight ++ s.urgent.absQ :=
+  Proofs.Wake.exactly_once_urgent s h
+
+theorem wake_exactly_once_low (s : State) (h : Reachable s) :
+    ∃ inflight : List Nat, inflight.length ≤ 1 ∧
+      s.low.enqLog = s.executedL ++ inflight ++ s.low.absQ :=
+  Proofs.Wake.exactly_once_low s h
+
+/-- high-priority requests always enter the urgent queue; low-priority ones enter it too
+    unless the threshold routes them to the low-priority queue (so one goroutine's
+    high-priority requests are carried out in issue order by `wake_exactly_once_urgent`) -/
+theorem wake_high_priority_urgent (s : State) (tid task : Nat) (t : Thread)
+    (ht : s.threads[tid]? = some t) (hi : t.pc = .idle) (h0 : 0 < tid) :
+    ((start s tid task false).threads.getD tid {}).pc = .pEnqU :=
+  Proofs.Wake.high_priority_urgent s tid task t ht hi h0
+
+/-- the wake-up flag is a boolean and the eventfd counter counts exactly the writes -/
+theorem wake_flag (s : State) (h : Reachable s) : s.wakeupCall = 0 ∨ s.wakeupCall = 1 :=
+  Proofs.Wake.flag s h
+
+/-- NEVER STUCK (the safety half of "is carried out"): from every reachable state with a
+    queued task some continuation executes a task. Liveness proper additionally needs a fair
+    scheduler, which is an assumption about the Go runtime. -/
+theorem wake_never_stuck (s : State) (h : Reachable s) (hq : anyQueued s) (hx : loopPc s ≠ .lExit) :
+    ∃ evs, s.executedU.length + s.executedL.length <
+      (runEvs s evs).executedU.length + (runEvs s evs).executedL.length :=
+  Proofs.Wake.never_stuck s h hq hx
+
+-- non-vacuity: a producer has linked its task and the loop is blocked: the wake-up is the
+-- producer's pending attempt; after it finishes the edge is pending
+example : let s := runEvs (init 1 1024) [.start 1 7 false, .step 1, .step 1, .step 1, .step 1]
+    (s.urgent.absQ, s.edge, (s.threads.getD 1 {}).pc, loopPc s) = ([7], false, Pc.pEnqU, Pc.lWait) := by decide
+example : let s := runEvs (init 1 1024) ([.start 1 7 false] ++ List.replicate 8 (.step 1))
+    (s.urgent.absQ, s.edge, s.wakeupCall, (s.threads.getD 1 {}).pc) = ([7], true, 1, Pc.idle) := by decide
 
 end Gnet.Props.C03
